@@ -1,10 +1,13 @@
 package c08
 
 import (
+	"encoding/json"
 	"flag"
 	"fmt"
 	"math/rand"
+	"os"
 	"reflect"
+	"time"
 
 	"verifharness/internal/cli"
 )
@@ -93,6 +96,7 @@ func runRandom(id int, seed int64, nUpd, evtCap int) (res randomResult) {
 	}
 	defer w.close()
 	res.Events = append(res.Events, map[string]interface{}{"ev": "reset", "static": res.Static})
+	journalStart(id, seed, res.Static)
 	i := 0
 	quiet := func() {
 		if !w.quiescent() {
@@ -110,6 +114,7 @@ func runRandom(id int, seed int64, nUpd, evtCap int) (res randomResult) {
 		canUpd := delivered < nUpd && w.pending == nil
 		canCtl := w.backlog() > 0
 		if canCtl && (!canUpd || r.Float64() < pCtl) {
+			journalStep(update{A: "Ctl", Add: []string{}, Rem: []string{}})
 			ev, blocked, err := w.ctlStep()
 			if err != nil {
 				res.Err = fmt.Sprintf("step %d (Ctl): %v", i, err)
@@ -135,6 +140,7 @@ func runRandom(id int, seed int64, nUpd, evtCap int) (res randomResult) {
 			if win != "" {
 				w.wins[u.S] = append(w.wins[u.S], win)
 			}
+			journalStep(u)
 			blocked, err := w.deliver(u)
 			if err != nil {
 				res.Err = fmt.Sprintf("step %d (%s): %v", i, u.A, err)
@@ -165,23 +171,134 @@ func runRandom(id int, seed int64, nUpd, evtCap int) (res randomResult) {
 	return
 }
 
+// the journal holds the steps of the history in flight, written before each step is executed: when the process
+// dies in the code under test the supervisor still knows the history that killed it
+var journal *os.File
+
+func journalStart(id int, seed int64, static []string) {
+	if journal == nil {
+		return
+	}
+	journal.Truncate(0)
+	journal.Seek(0, 0)
+	b, _ := json.Marshal(map[string]interface{}{"id": id, "seed": seed, "static": static})
+	journal.Write(append(b, '\n'))
+}
+
+func journalStep(u update) {
+	if journal == nil {
+		return
+	}
+	b, _ := json.Marshal(u)
+	journal.Write(append(b, '\n'))
+}
+
+func readJournal(path string) (static []string, steps []update) {
+	static = []string{}
+	first := true
+	cli.ReadNDJSON(path, func(line []byte) error {
+		if first {
+			first = false
+			var h struct {
+				Static []string `json:"static"`
+			}
+			if json.Unmarshal(line, &h) == nil && h.Static != nil {
+				static = h.Static
+			}
+			return nil
+		}
+		var u update
+		if json.Unmarshal(line, &u) == nil {
+			steps = append(steps, u)
+		}
+		return nil
+	})
+	return
+}
+
+// c08Random: supervisor (default) or worker (-worker: histories first..first+n-1, one result line each on stdout).
 func c08Random(args []string) error {
 	fs := flag.NewFlagSet("c08-random", flag.ContinueOnError)
 	n := fs.Int("n", 100, "number of histories")
 	l := fs.Int("len", 12, "updates per history")
 	evtCap := fs.Int("cap", 2, "capacity of the event channel")
 	out := fs.String("out", "", "results (ndjson)")
+	isWorker := fs.Bool("worker", false, "worker process: results on stdout")
+	first := fs.Int("first", 0, "index of the first history (worker)")
+	jpath := fs.String("journal", "", "journal of the history in flight (worker)")
 	if err := fs.Parse(args); err != nil {
 		return err
 	}
-	wr, err := cli.NewNDJSONWriter(*out)
+	if *isWorker {
+		if *jpath != "" {
+			f, err := os.Create(*jpath)
+			if err != nil {
+				return err
+			}
+			journal = f
+		}
+		o := lineWriter{os.Stdout}
+		for i := *first; i < *first+*n; i++ {
+			j, err := json.Marshal(runRandom(i, cli.Seed()*1000003+int64(i), *l, *evtCap))
+			if err != nil {
+				return err
+			}
+			if err := o.write(j); err != nil {
+				return err
+			}
+		}
+		return nil
+	}
+	wr, err := os.Create(*out)
 	if err != nil {
 		return err
 	}
 	defer wr.Close()
-	for i := 0; i < *n; i++ {
-		if err := wr.Write(runRandom(i, cli.Seed()*1000003+int64(i), *l, *evtCap)); err != nil {
+	lw := lineWriter{wr}
+	jfile := *out + ".journal"
+	defer os.Remove(jfile)
+	spawn := func(first, n int) (*worker, error) {
+		return startWorker("c08-random", "-worker", "-first", fmt.Sprint(first), "-n", fmt.Sprint(n),
+			"-len", fmt.Sprint(*l), "-cap", fmt.Sprint(*evtCap), "-journal", jfile)
+	}
+	budget := confirmBudget{}
+	for next := 0; next < *n; {
+		wk, err := spawn(next, *n-next)
+		if err != nil {
 			return err
+		}
+		for next < *n {
+			res, crash := wk.next(60 * time.Second)
+			if crash == nil {
+				if err := lw.write(res); err != nil {
+					return err
+				}
+				next++
+				continue
+			}
+			static, steps := readJournal(jfile) // history `next` was in flight
+			if !crash.Hang && budget.want(crash) {
+				w2, err := spawn(next, 1)
+				if err != nil {
+					return err
+				}
+				if _, c2 := w2.next(60 * time.Second); c2 != nil {
+					crash.Confirmed = c2.Frame == crash.Frame && c2.Panic != ""
+				} else {
+					w2.stop()
+				}
+			}
+			r, _ := json.Marshal(map[string]interface{}{"id": next, "seed": cli.Seed()*1000003 + int64(next),
+				"static": static, "steps": steps, "crash": crash})
+			if err := lw.write(r); err != nil {
+				return err
+			}
+			next++
+			wk = nil
+			break
+		}
+		if wk != nil {
+			wk.stop()
 		}
 	}
 	return nil
